@@ -582,6 +582,18 @@ impl<'tcx> Cx<'tcx> {
         if matches!(tcx.def_kind(did), DefKind::Fn | DefKind::AssocFn) {
             o.set("vis", J::s(&format!("{:?}", tcx.visibility(did))));
         }
+        {
+            // names of the type parameters in scope, in substitution order (pairs with a call's "targs")
+            let g = tcx.generics_of(did);
+            let mut names = Vec::new();
+            for i in 0..g.count() {
+                let p = g.param_at(i, tcx);
+                if let ty::GenericParamDefKind::Type { .. } = p.kind {
+                    names.push(J::s(&p.name.to_string()));
+                }
+            }
+            o.set("generics", J::Arr(names));
+        }
         o.set("span", span_json(tcx, body.span));
         o.set("arg_count", J::i(body.arg_count as i128));
         if let Some(ck) = body.coroutine_kind() {
